@@ -197,6 +197,16 @@ def scratch_base():
             base = "/dev/shm" if os.path.isdir("/dev/shm") and os.access("/dev/shm", os.W_OK) else os.path.join(
                 VERIF, ".scratch")
         os.makedirs(base, exist_ok=True)
+        # scratch left behind by killed runs (older than six hours) is removed; live runs are never touched
+        try:
+            now = time.time()
+            for name in os.listdir(base):
+                if name.startswith(("ktv-", "ktmc-")):
+                    p = os.path.join(base, name)
+                    if now - os.path.getmtime(p) > 6 * 3600:
+                        shutil.rmtree(p, ignore_errors=True)
+        except OSError:
+            pass
         _SCRATCH = tempfile.mkdtemp(prefix="ktv-%d-" % os.getpid(), dir=base)
     return _SCRATCH
 
